@@ -62,6 +62,11 @@ def get_service_id_by_sname(sname: str) -> str:
         raise KeyError(f"The service id corresponding to sname {sname} not found.")
 
 
+def check_sname_available(sname: str):
+    if sname in read_service_mapping():
+        raise KeyError(f"The service name {sname} already exists.")
+
+
 def record_sname_id_pair(sname: str, sid: str):
     mapping = read_service_mapping()
     if sname in mapping:
